@@ -684,6 +684,8 @@ def run(chk):
         raise core.AnalysisBroken("only %d token cursors found (UDQParser, Action::Parser, Action::Condition, make_udq_tokens are four on the pinned tree)" % n_cursors)
     from verif import fallthrough
     fallthrough.run(chk, "C20", floor=20)
+    from verif import moved
+    moved.run(chk, "C20", r"^/repo/opm/", floor=120)
     from verif import argorder
     argorder.run(chk, "C20", floor=160)
 
